@@ -119,7 +119,7 @@ def output_algorithm(out: OutputBuffer, alg_db: Dict[str, Dict[str, List[List[Op
         if len(ca_key_type) > 0 and ca_key_size > 0:
             alg_name_with_size = '%s (%u-bit cert/%u-bit %s CA)' % (alg_name, hostkey_size, ca_key_size, ca_key_type)
             padding = padding[0:-15]
-        elif alg_name in HostKeyTest.RSA_FAMILY:
+        elif alg_name in HostKeyTest.RSA_FAMILY and hostkey_size > 0:  # A size of zero means the server never presented this key (the probe connection was dropped).
             alg_name_with_size = '%s (%u-bit)' % (alg_name, hostkey_size)
             padding = padding[0:-11]
 
@@ -242,7 +242,7 @@ def output_fingerprints(out: OutputBuffer, algs: Algorithms, is_json_output: boo
         if algs.ssh2kex is not None:
             host_keys = algs.ssh2kex.host_keys()
             for host_key_type in algs.ssh2kex.host_keys():
-                if host_keys[host_key_type] is None:
+                if host_keys[host_key_type] is None or len(cast(bytes, host_keys[host_key_type]['raw_hostkey_bytes'])) == 0:  # No key was received (the probe connection was dropped), so there is nothing to fingerprint.
                     continue
 
                 fp = Fingerprint(cast(bytes, host_keys[host_key_type]['raw_hostkey_bytes']))
@@ -1099,7 +1099,7 @@ def build_struct(target_host: str, banner: Optional['Banner'], kex: Optional['SS
                 if 'ca_key_size' in hostkey_info:
                     ca_size = cast(int, hostkey_info['ca_key_size'])
 
-                if algorithm in HostKeyTest.RSA_FAMILY or algorithm.startswith('ssh-rsa-cert-v0'):
+                if (algorithm in HostKeyTest.RSA_FAMILY or algorithm.startswith('ssh-rsa-cert-v0')) and hostkey_size > 0:
                     entry['keysize'] = hostkey_size
                 if ca_size > 0:
                     entry['ca_algorithm'] = ca_type
@@ -1135,7 +1135,7 @@ def build_struct(target_host: str, banner: Optional['Banner'], kex: Optional['SS
                 host_keys['ssh-rsa'] = val
 
         for host_key_type in sorted(host_keys):
-            if host_keys[host_key_type] is None:
+            if host_keys[host_key_type] is None or len(cast(bytes, host_keys[host_key_type]['raw_hostkey_bytes'])) == 0:
                 continue
 
             fp = Fingerprint(cast(bytes, host_keys[host_key_type]['raw_hostkey_bytes']))
